@@ -2206,8 +2206,14 @@ static void compile_stmt(CG *cg, ASTNode *node) {
     }
 
     case AST_BLOCK: {
+        uint16_t scope_start = cg->local_count;
         for (int i = 0; i < node->as.block.count; i++) {
             compile_stmt(cg, node->as.block.statements[i]);
+        }
+        /* Leaving the block: its locals keep their slots but are no longer
+         * visible by name, so an outer variable they shadowed is found again */
+        for (uint16_t i = scope_start; i < cg->local_count; i++) {
+            cg->locals[i].name = "";
         }
         break;
     }
